@@ -47,9 +47,11 @@ class Cache:
         for arg in args:
             self._update_hash(arg)
 
-        # hash keyword arguments
+        # hash keyword arguments (the header delimits them from the
+        # positional arguments: `f("a", 1)` is not `f(a=1)`)
         kwds = list(kwargs.keys())
         kwds.sort()
+        self.ahash.update(f"kwargs:{len(kwds)}:".encode('utf-8'))
         for k in kwds:
             self._update_hash(k)
             self._update_hash(kwargs[k])
